@@ -2370,7 +2370,7 @@ class NaturalJoinNode(ViewRepresentation):
         if check_all_common_keys_in_equi_spec:
             missing_common = set(a.column_names).intersection(
                 set(b.column_names)
-            ) - set(on_a).intersection(on_b)
+            ) - set([ka for ka, kb in zip(on_a, on_b) if ka == kb])
             if len(missing_common) > 0:
                 raise KeyError(
                     "check_all_common_keys_in_equi_spec set, and the following common keys are are not in the on-clause: "
